@@ -11,6 +11,7 @@ from .loader import norm_text, dotted
 
 BOUNDED = 'int'        # integer that fits int32 (MIDI data bytes, 14/16 bit fields, small counters)
 UNBOUNDED = 'bigint'   # integer of arbitrary size
+SURROGATE_STR = 'str with possible lone surrogates'
 
 
 class Issue:
@@ -292,7 +293,10 @@ class ClosedWorld:
       if vt not in ('bool', BOUNDED):
         self.issue(tgt, 'TypeError', 'bool field %s receives a value of type %s' % (name, vt))
     elif ft in ('string', 'bytes'):
-      if vt != 'str':
+      if vt == SURROGATE_STR and ft == 'string':
+        self.issue(tgt, 'UnicodeEncodeError', 'string field %s receives text decoded with errors=\'surrogateescape\': a byte that is not valid in the codec becomes a lone '
+                   'surrogate, which the protobuf string field refuses with UnicodeEncodeError' % name, positive=True)
+      elif vt != 'str':
         self.issue(tgt, 'TypeError', 'string field %s receives a value of type %s' % (name, vt))
 
   # ------------------------------------------------------------ expressions
@@ -497,6 +501,39 @@ class ClosedWorld:
       return 'bool'
     return None
 
+  def _codec(self, node, bt, meth):
+    """str.encode / bytes.decode with literal codec and error handler.  Text types: 'str' holds no lone surrogate (it can always be
+    encoded as UTF-8, which is what a protobuf string field does); SURROGATE_STR may hold some (the result of decoding with
+    errors='surrogateescape' bytes that are not known to be valid); 'bytes:utf8' is the UTF-8 encoding of a 'str'."""
+    args = list(node.args) + [None, None]
+    codec = next((k.value for k in node.keywords if k.arg == 'encoding'), args[0])
+    errors = next((k.value for k in node.keywords if k.arg == 'errors'), args[1])
+    lit = lambda x: x.value if isinstance(x, ast.Constant) else None      # noqa: E731
+    codec = lit(codec) if codec is not None else 'utf-8'
+    errors = lit(errors) if errors is not None else 'strict'
+    if not isinstance(codec, str) or not isinstance(errors, str):
+      self.issue(node, 'Any', '%s with a codec or error handler that is not a literal' % norm_text(node)[:50])
+      return 'bytes' if meth == 'encode' else 'str'
+    c = codec.lower().replace('_', '-')
+    utf8 = c in ('utf-8', 'utf8')
+    total = c in ('latin-1', 'latin1', 'iso-8859-1', 'iso8859-1', 'l1', 'cp437', 'cp850')     # every byte decodes
+    lenient = errors in ('ignore', 'replace', 'backslashreplace', 'xmlcharrefreplace', 'namereplace')
+    if meth == 'encode':
+      if bt == SURROGATE_STR and errors not in ('surrogateescape', 'surrogatepass') and not lenient:
+        self.issue(node, 'UnicodeEncodeError', '%s encodes text that may hold lone surrogates' % norm_text(node)[:60], positive=True)
+        return 'bytes'
+      if utf8 or lenient or errors == 'surrogateescape':
+        return 'bytes:utf8' if utf8 and bt == 'str' else 'bytes'
+      self.issue(node, 'Any', '%s: whether every character fits %s is a fact about the text, which is not modelled' % (norm_text(node)[:50], codec))
+      return 'bytes'
+    # decode
+    if total or lenient or (utf8 and bt == 'bytes:utf8'):
+      return 'str'
+    if errors in ('surrogateescape',):
+      return SURROGATE_STR
+    self.issue(node, 'UnicodeDecodeError', '%s raises UnicodeDecodeError for bytes that are not valid %s' % (norm_text(node)[:60], codec), positive=True)
+    return 'str'
+
   def x_Call(self, node):
     f = node.func
     d = dotted(f)
@@ -520,6 +557,8 @@ class ClosedWorld:
           if isinstance(f.value, ast.Name):
             self.env[f.value.id] = ('list', argt[0])
         return 'none'
+      if bt in ('str', SURROGATE_STR) and f.attr == 'encode' or (isinstance(bt, str) and bt.startswith('bytes') and f.attr == 'decode'):
+        return self._codec(node, bt, f.attr)
       key = '%s.%s' % (bt if isinstance(bt, str) else '?', f.attr)
       if key in self.call_types:
         return self.call_types[key]
